@@ -204,9 +204,19 @@ def run(ctx):
     if jr['n'] <= 64:
       recs.append({'sid': 'jdk-%d' % i, 'ev': 'jdk', 'args': {'seed': jr['seed'], 'n': jr['n']}, 'obs': {'bytes': jr['bytes']}, 'raised': 'none'})
   # truncated LCG: small state sizes recomputed by TLC, registry sizes against the stated recurrence
+  # the multipliers of the modelled generators (L'Ecuyer 1999, table 4; Steele / Vigna for 256 bits) from a committed fixture, so that the
+  # reference stream does not move with the table under test
+  mult = {int(k): int(v) for k, v in json.load(open(os.path.join(tlc.SPEC, 'fixtures', 'trunclcg_multipliers.json')))['a_of_w'].items()}
+  for w in sorted(mult):
+    rec = R('lcgmult-%d' % w, 'lcgmult', {'name': 'trunclcg%d' % w, 'family': 'trunclcg', 'n': w, 'n_mod_8': 0})
+    try:
+      rec['obs'] = {'same': int(rng_mod.TruncLcgRand(w).a) == mult[w]}
+    except Exception as e:  # pylint: disable=broad-except
+      rec['raised'] = type(e).__name__
+    recs.append(rec)
   for w in (2, 3, 4, 5, 6, 7):
     g = rng_mod.TruncLcgRand(w)
-    a_eff = int(g.a) % (1 << (2 * w))
+    a_eff = mult[w] % (1 << (2 * w))
     for i in range(40 if ctx.quick else 250):
       seed = rnd.randrange(0, 1 << (2 * w))
       n = rnd.choice([1, 3, 7, 8, 9, 15, 16, 17, 24]) if i % 2 else 8 * rnd.randrange(1, 4)
@@ -231,7 +241,7 @@ def run(ctx):
         v = int(g.RandomBits(n, seed=seed))
         st, out, ob = seed, b'', (w + 7) // 8
         while len(out) < (n + 7) // 8:
-          st = (st * int(g.a) + 1) % (1 << (2 * w))
+          st = (st * mult[w] + 1) % (1 << (2 * w))
           out += (st >> w).to_bytes(ob, 'little')
         want = int.from_bytes(out[:(n + 7) // 8], 'little') % (1 << n)
         rec['obs'] = {'matches': v == want}
